@@ -24,7 +24,7 @@ CLAIMS = {
              "outside a non-repeating source. TLC requires: the operator pixman actually used (hook event) is a valid "
              "replacement in the cell given by its IS_OPAQUE flags; a flag is only set on an image that is truly "
              "opaque for the request; both presentations leave identical channel values (within one step where "
-             "the variants are evaluated at different precision: SATURATE, 565 sources under float operators). " + 'The pairs include projective transforms, with a directed family in which one corner of the request falls outside a non-repeating alpha-less source while the opposite corners are inside.' + "",
+             "the variants are evaluated at different precision: SATURATE, 565 sources under float operators). " + 'The pairs include projective transforms, with a directed family in which one corner of the request falls outside a non-repeating alpha-less source while the opposite corners are inside.' + " Gradients: linear, radial and conical gradients x the four repeat modes x stop lists spanning [0, 1] or strictly inside it, with opaque or translucent stops, as sources and as masks, each presented directly and as an a8r8g8b8 image holding the same samples; TLC decides from the logged samples of the gradient whether it is truly opaque for the request and requires every opaque flag, dropped mask and reduced operator to be justified by that.",
         ref="5 C09"),
 }
 
@@ -187,6 +187,70 @@ def gen_pairs(rng, per_op):
     return lines, pair
 
 
+def gen_gradient_pairs(rng, pair, per_cell):
+    """Gradients as sources and as masks: kind (linear, radial, conical) x repeat mode x stop list (spanning [0, 1] or
+    strictly inside it / touching one end; all stops opaque or some translucent) x geometry (reference points inside, on
+    the edge of and outside the request; on pixel centres, pixel corners and in between), each presented directly and as
+    an a8r8g8b8 image holding the same samples, under the operators that opacity reduces."""
+    lines = []
+    A, X, R565 = F["a8r8g8b8"], F["x8r8g8b8"], F["r5g6b5"]
+    H = FX1 // 2
+    STOPS = [[0, FX1], [0, H, FX1], [FX1 // 4, 3 * FX1 // 4], [FX1 // 10, H, 3 * FX1 // 5], [0, 3 * FX1 // 4],
+             [FX1 // 4, FX1], [H], [0, FX1 // 3, 2 * FX1 // 3, FX1]]
+    REDUCIBLE = [3, 6, 8, 9, 11, 10, 4, 5, 7]      # OVER IN_REVERSE OUT_REVERSE ATOP XOR ATOP_REVERSE OVER_REVERSE IN OUT
+    for gkind in (0, 1, 2):
+        for grep in (0, 1, 2, 3):                  # NONE NORMAL PAD REFLECT
+            for si, pos in enumerate(STOPS):
+                for role in (0, 1):
+                    for _ in range(per_cell):
+                        dw, dh = rng.randint(5, 12), rng.randint(2, 4)
+                        w, h = rng.randint(3, dw), rng.randint(1, dh)
+                        dx, dy = rng.randint(0, dw - w), rng.randint(0, dh - h)
+                        gx, gy = rng.choice([0, 0, 1, -2, 3]), rng.choice([0, 0, 1, -1])
+                        # reference points in gradient space, relative to the part of it the request samples
+                        def pt():
+                            px = (gx + rng.randint(-1, w + 1)) * FX1 + rng.choice([0, H, H, FX1 // 4, 12345])
+                            py = (gy + rng.randint(-1, h)) * FX1 + rng.choice([0, H, H, FX1 // 4, 54321])
+                            return px, py
+                        if gkind == 0:
+                            (x1, y1), (x2, y2) = pt(), pt()
+                            if (x1, y1) == (x2, y2):
+                                x2 += 3 * FX1
+                            g = [x1, y1, x2, y2, 0, 0]
+                        elif gkind == 1:
+                            (x1, y1), (x2, y2) = pt(), pt()
+                            r1 = rng.choice([0, H, FX1, 2 * FX1])
+                            r2 = r1 + rng.choice([FX1, 3 * FX1, 6 * FX1, 40 * FX1]) if rng.random() < 0.8 else rng.choice([0, FX1])
+                            if rng.random() < 0.4:
+                                x2, y2 = x1, y1            # concentric: one circle contains the other
+                            g = [x1, y1, r1, x2, y2, r2]
+                        else:
+                            (x1, y1) = pt()
+                            g = [x1, y1, rng.choice([0, 0, 45, 90, 180, 270, 359, -30]) * FX1, 0, 0, 0]
+                        ak = rng.choice(["opaque", "opaque", "opaque", "last", "one", "all"])
+                        alphas = [0xffff] * len(pos)
+                        if ak == "last":
+                            alphas[-1] = rng.choice([0xfffe, 0xff00, 0x8000, 0])
+                        elif ak == "one":
+                            alphas[rng.randrange(len(pos))] = rng.choice([0xfffe, 0xfeff, 0x8000])
+                        elif ak == "all":
+                            alphas = [rng.choice([0xfffe, 0xc000, 0x4000]) for _ in pos]
+                        st = []
+                        for i in range(4):
+                            st += [pos[i], alphas[i]] if i < len(pos) else [FX1, 0xffff]
+                        op = rng.choice(REDUCIBLE + REDUCIBLE + [1, 12, 0, 2])
+                        other = rng.choice([0, 0, 1, 4, 2, 5]) if role == 0 else rng.choice([0, 10, 1, 4])
+                        dfmt = rng.choice([A, A, X, R565])
+                        seed = rng.randrange(1, 2 ** 31)
+                        for vi in (0, 1):
+                            f = [pair, vi, 0, op, role, gkind, grep] + g + [len(pos)] + st + \
+                                [other, dfmt, dw, dh, gx, gy, dx, dy, w, h, seed]
+                            assert len(f) == 33
+                            lines.append("G " + " ".join(str(int(v)) for v in f))
+                        pair += 1
+    return lines, pair
+
+
 def run(prop, args):
     chk = vf.Check(prop, args.tier, args.seed)
     quick = args.tier == "quick"
@@ -223,6 +287,9 @@ def run(prop, args):
     exe, px = vf.build_driver("drv_opacity", "plain")
     chk.extra["build"] = px["hash"]
     lines, npairs = gen_pairs(rng, 6 if quick else 1000)
+    glines, npairs = gen_gradient_pairs(random.Random(args.seed * 911 + 10), npairs, 2 if quick else 40)
+    lines += glines
+    chk.extra["gradient_pairs"] = len(glines) // 2
     script = os.path.join(wd, "pairs.script")
     open(script, "w").write("\n".join(lines) + "\n")
     chk.sample({"pair_script_lines": lines[:2]})
